@@ -1,0 +1,23 @@
+// Verification hooks (only compiled with `--cfg jj_vcs_jj_verif`; never part of a normal build).
+//
+// `point(kind, detail)` marks a step boundary of the storage protocols ("about to do X").
+// A test harness may install a callback that records the step, blocks the calling thread
+// until a scheduler lets it continue, or aborts the process to simulate a crash.
+
+use std::sync::RwLock;
+
+type Hook = Box<dyn Fn(&'static str, &str) + Send + Sync>;
+
+static HOOK: RwLock<Option<Hook>> = RwLock::new(None);
+
+/// Installs (or clears) the process-wide hook.
+pub fn set_hook(hook: Option<Hook>) {
+    *HOOK.write().unwrap() = hook;
+}
+
+/// Reports that the current thread is about to perform the step `kind` on `detail`.
+pub fn point(kind: &'static str, detail: &str) {
+    if let Some(hook) = &*HOOK.read().unwrap() {
+        hook(kind, detail);
+    }
+}
